@@ -349,6 +349,9 @@ func (g *G) scalar(t reflect.Type, yt *yang.YangType) (reflect.Value, bool) {
 	case reflect.Slice:
 		if t.Elem().Kind() == reflect.Uint8 {
 			n := 1 + g.R.Intn(4)
+			if t.Name() == "Binary" && g.R.Intn(8) == 0 {
+				n = 0 // a zero-length binary value is a value (RFC 7950 9.8), distinct from an unset leaf
+			}
 			b := make([]byte, n)
 			for i := range b {
 				b[i] = byte(g.R.Intn(256))
